@@ -138,6 +138,44 @@ def crash_clauses(post):
     return cl
 
 
+def written_clauses(pre, post):
+    """Whatever happens after the frame was handed to the transport (also a transport fault in drain()): a NEW number
+    that was written stays consumed - live and stored counters are past it, so neither this object nor a successor
+    built from the journal can use it for a different message."""
+    cl = []
+    for f in post.W[len(pre.W):]:
+        if f.opaque or f.new is not True:
+            continue
+        cl.append(("crash.written_number_stays_consumed", And(post.nout > f.seq, post.J_out >= f.seq)))
+    return cl
+
+
+def send_fault_harness(I):
+    c = I.ctx
+    conn = sc.mk_conn(I, states=CONNECTED, writer=True, reader=True)
+    I.ctx.ghost["drain_mode"] = "fault"
+    msg = sc.mk_msg(I, "m")
+    m = sc.emsg(I, "m", register=("34", "43"))
+    pre = sc.eview(I, conn)
+    I.ctx.ghost["pre_view"] = pre
+    k0 = c.inp_int("k0")
+    I.ctx.ghost["k0"] = k0
+    for n, cl in ic.inv_clauses(pre, k0):
+        c.assume(cl)
+    out = sc.run(I, I.getattr(conn, "send_msg"), [msg])
+    sc.observe(I, conn, out, pre)
+    post = sc.eview(I, conn, out)
+    return written_clauses(pre, post) + [("crash.fault_variant_runs", True)]
+
+
+def resend_sync_harness(I):
+    """_process_resend (real body, C06 harness): afterwards stored = live also for the outbound counter."""
+    import C06_resend as c06
+    cl = c06.harness(False)(I)
+    keep = ("after.stored_counter_restored", "after.next_outbound_number_restored")
+    return [("sync.resend." + n.split(".", 1)[1], c) for n, c in cl if n in keep] + [("sync.resend.runs", True)]
+
+
 def crash_concrete(obs):
     ops = obs["post"].get("ops", [])
     cl = []
@@ -198,7 +236,7 @@ def witness_case(task, cover):
     inp = cover["inputs"]
     if task.name == "sync[process_message]":
         return sc.conn_native_case("process_message", inp, comp_ids_ok=True)
-    if task.name == "sync[send_msg]":
+    if task.name in ("sync[send_msg]", "crash[send_msg,transport_fault]"):
         return sc.conn_native_case("send_msg", inp, begin_ok=False)
     if task.name == "sync[disconnect]":
         return sc.conn_native_case("disconnect", inp, with_msg=False,
@@ -230,6 +268,8 @@ def violates(rp, obs):
     post = concrete_post(obs)
     name = rp["obligation"].split(".", 1)[1]
     cls = sync_clauses(post) + crash_concrete(obs)
+    if rp["obligation"].startswith("crash[send_msg,transport_fault]"):
+        cls = written_clauses(concrete_pre(rp["native_case"]), post)
     if rp["obligation"].startswith("sync[send_msg]"):
         m = concrete_msg(rp["native_case"])
         if m.type == "4" or (m.has("43") and m.val("43") == "Y"):
@@ -242,6 +282,11 @@ def violates(rp, obs):
     return False
 
 
+def _c06_cfg():
+    import C06_resend as c06
+    return c06.resend_cfg(None, False)
+
+
 FUNCS = [CONN + "." + f for f in ("__init__", "_process_message", "_finalize_message", "_process_seqreset", "send_msg",
                                   "disconnect", "reset_seq_num", "_state_set")] + [
     jc.JQ + ".create_or_load", "asyncfix.session.FIXSession.set_next_num_in"]
@@ -252,6 +297,8 @@ TASKS = [
     Task("sync[process_message]", pm_sync_harness, ic.pm_cfg(), [CONN + "._process_message", CONN + "._finalize_message"],
          native="conn", timeout_ms=20000),
     Task("sync[send_msg]", send_sync_harness, sc.session_cfg(), [CONN + ".send_msg"], native="conn"),
+    Task("crash[send_msg,transport_fault]", send_fault_harness, sc.session_cfg(), [CONN + ".send_msg"], native="conn"),
+    Task("sync[process_resend]", resend_sync_harness, _c06_cfg(), [CONN + "._process_resend"], timeout_ms=20000),
     Task("sync[disconnect]", disconnect_sync_harness, sc.session_cfg(), [CONN + ".disconnect"], native="conn"),
     Task("sync[reset_seq_num]", reset_sync_harness, sc.session_cfg(), [CONN + ".reset_seq_num"], native="conn"),
     Task("mustfail", mustfail, ic.pm_cfg(), [], expect_refuted=True),
